@@ -78,6 +78,7 @@ type c16Key struct {
 	nPlus   *num.NatPlus
 	sk      *paillier.SecretKey
 	pk      *paillier.PublicKey
+	ctx     *Ctx // set by runC16: every operation then goes through the input-immutability oracle
 }
 
 func c16NatPlus(v *big.Int) *num.NatPlus {
@@ -235,10 +236,14 @@ type paillierOps interface {
 }
 
 func (k *c16Key) ops(path string) paillierOps {
+	var inner paillierOps = k.pk
 	if path == "sk" {
-		return k.sk
+		inner = k.sk
 	}
-	return k.pk
+	if k.ctx == nil {
+		return inner
+	}
+	return &c16Immut{c: k.ctx, path: path, inner: inner}
 }
 
 func runC16(c *Ctx) {
@@ -285,11 +290,37 @@ func runC16(c *Ctx) {
 		good = append(good, k)
 	}
 	c16KeyValidation(c, r, good)
+	// the same modulus with the factors in the other order (p < q and p > q both occur)
+	if len(good) > 0 {
+		src := good[len(good)-1]
+		if len(good) >= 4 {
+			src = good[3] // the 2048-bit legacy key: cheapest
+		}
+		if sw, err := c16SwappedKey(src); err != nil {
+			c.Violation(fmt.Sprintf("rebuilding a key with swapped factors failed p=%s q=%s: %s", hexNat(src.q), hexNat(src.p), c16Err(err)))
+		} else {
+			c.Emit(fmt.Sprintf("key %s %d %s %s", sw.flavour, sw.bits, hexNat(sw.p), hexNat(sw.q)), "ok:"+hexNat(sw.N))
+			c.Count("key.swapped")
+			good = append(good, sw)
+		}
+	}
+	for _, k := range good {
+		k.ctx = c
+		if k.p.Cmp(k.q) < 0 {
+			c.Count("key.p<q")
+		} else {
+			c.Count("key.p>q")
+		}
+	}
 	for i, k := range good {
 		kr := NewRng(c.Seed, 1610+uint64(i))
 		c16Constructors(c, kr, k)
 		c16Encrypt(c, kr, k, prng)
+		c16SymEnc(c, kr, k)
+		c16SkOps(c, kr, k)
 		c16Chains(c, kr, k)
+		c16Aggregation(c, kr, k)
+		c16DecBad(c, kr, k)
 		if len(good) > 1 {
 			c16Foreign(c, kr, k, good[(i+1)%len(good)])
 		}
@@ -482,6 +513,11 @@ func c16Constructors(c *Ctx, r *Rng, k *c16Key) {
 func (k *c16Key) emitDecOpen(c *Ctx, ct *paillier.Ciphertext, wantM, wantR *big.Int) {
 	cv := ctBig(ct)
 	lhs := fmt.Sprintf("%s %s %s %s", hexNat(k.p), hexNat(k.q), hexNat(ct.Value().N().Big()), hexNat(cv))
+	if k.ctx != nil {
+		g := newGuard(k.ctx, "paillier.sk.Decrypt+Open")
+		g.val("ciphertext", func() string { return snapCt(ct) })
+		defer g.done()
+	}
 	res := safely(func() string {
 		m, err := k.sk.Decrypt(ct)
 		if err != nil {
@@ -503,7 +539,7 @@ func (k *c16Key) emitDecOpen(c *Ctx, ct *paillier.Ciphertext, wantM, wantR *big.
 			c.Violation(fmt.Sprintf("Open returned a different opening p=%s q=%s c=%s want=%s got=%s", hexNat(k.p), hexNat(k.q), hexNat(cv), hexList(wantM, wantR), hexList(ptBig(m), ncBig(n))))
 		}
 		// independent oracle: re-encryption under the public path
-		back, err := k.pk.EncryptWithNonce(m, n)
+		back, err := k.ops("pk").EncryptWithNonce(m, n)
 		if err != nil || !back.Equal(ct) {
 			c.Violation(fmt.Sprintf("Open: re-encryption differs p=%s q=%s c=%s opened=%s", hexNat(k.p), hexNat(k.q), hexNat(cv), hexList(ptBig(m), ncBig(n))))
 		}
@@ -710,9 +746,12 @@ func (k *c16Key) c16Step(c *Ctx, r *Rng, path string, t *c16Triple) (kind, opera
 	switch r.IntN(6) {
 	case 0, 1: // CiphertextOp with 1..3 further ciphertexts
 		n := 1 + r.IntN(3)
-		others := make([]*c16Triple, n)
+		// the operands live in arrays with 0..2 further LIVE elements behind the window that is
+		// passed as the variadic argument (sub-slice xs[1:n] with n < len <= cap)
+		total := n + r.IntN(3)
+		others := make([]*c16Triple, total)
 		ms, rs, cs := make([]string, n), make([]string, n), make([]string, n)
-		pts, ncs, cts := make([]*paillier.Plaintext, n), make([]*paillier.Nonce, n), make([]*paillier.Ciphertext, n)
+		pts, ncs, cts := make([]*paillier.Plaintext, total, total+1), make([]*paillier.Nonce, total, total+1), make([]*paillier.Ciphertext, total, total+1)
 		for i := range others {
 			otherPath := []string{"pk", "sk"}[r.IntN(2)]
 			others[i] = k.freshTriple(otherPath, r)
@@ -720,18 +759,28 @@ func (k *c16Key) c16Step(c *Ctx, r *Rng, path string, t *c16Triple) (kind, opera
 				others[i] = t // squaring
 			}
 			pts[i], ncs[i], cts[i] = others[i].pt, others[i].nc, others[i].ct
-			ms[i], rs[i], cs[i] = hexNat(ptBig(pts[i])), hexNat(ncBig(ncs[i])), hexNat(ctBig(cts[i]))
+			if i < n {
+				ms[i], rs[i], cs[i] = hexNat(ptBig(pts[i])), hexNat(ncBig(ncs[i])), hexNat(ctBig(cts[i]))
+			}
+		}
+		if total > n {
+			c.Count("hom.op.subslice")
 		}
 		kind = "op"
 		operands = joinComma(ms) + " " + joinComma(rs) + " " + joinComma(cs)
 		out = &c16Triple{}
-		if out.ct, err = o.CiphertextOp(t.ct, cts[0], cts[1:]...); err != nil {
+		if out.ct, err = o.CiphertextOp(t.ct, cts[0], cts[1:n]...); err != nil {
 			return
 		}
-		if out.pt, err = o.PlaintextOp(t.pt, pts[0], pts[1:]...); err != nil {
+		if out.pt, err = o.PlaintextOp(t.pt, pts[0], pts[1:n]...); err != nil {
 			return
 		}
-		out.nc, err = o.NonceOp(t.nc, ncs[0], ncs[1:]...)
+		out.nc, err = o.NonceOp(t.nc, ncs[0], ncs[1:n]...)
+		for i := range others {
+			if cts[i] != others[i].ct || pts[i] != others[i].pt || ncs[i] != others[i].nc {
+				c.Violation(fmt.Sprintf("input-mutated operand array slot %d replaced by a homomorphic product path=%s", i, path))
+			}
+		}
 	case 2:
 		kind = "inv"
 		out = &c16Triple{}
@@ -746,16 +795,7 @@ func (k *c16Key) c16Step(c *Ctx, r *Rng, path string, t *c16Triple) (kind, opera
 		s := k.randScalar(r)
 		kind = "scal"
 		operands = hexInt(s)
-		switch {
-		case s.Sign() < 0:
-			c.Count("scalar.negative")
-		case s.Sign() == 0:
-			c.Count("scalar.zero")
-		case s.Cmp(k.N) >= 0:
-			c.Count("scalar.geN")
-		default:
-			c.Count("scalar.small")
-		}
+		k.countScalar(c, s)
 		si := c16Int(s)
 		out = &c16Triple{}
 		if out.ct, err = o.CiphertextScalarOp(t.ct, si); err != nil {
@@ -793,6 +833,26 @@ func (k *c16Key) c16Step(c *Ctx, r *Rng, path string, t *c16Triple) (kind, opera
 	return
 }
 
+func (k *c16Key) countScalar(c *Ctx, s *big.Int) {
+	abs := new(big.Int).Abs(s)
+	switch {
+	case s.Sign() < 0:
+		c.Count("scalar.negative")
+	case s.Sign() == 0:
+		c.Count("scalar.zero")
+	case s.Cmp(k.N) < 0:
+		c.Count("scalar.small")
+	}
+	switch {
+	case abs.BitLen() > k.NN.BitLen():
+		c.Count("scalar.longer-than-NN")
+	case abs.Cmp(k.NN) >= 0:
+		c.Count("scalar.geNN")
+	case abs.Cmp(k.N) >= 0:
+		c.Count("scalar.geN")
+	}
+}
+
 // c16ScalarSweep forces every scalar class through both key paths (the random chains only sample them).
 func c16ScalarSweep(c *Ctx, r *Rng, k *c16Key) {
 	nHex := hexNat(k.N)
@@ -803,9 +863,11 @@ func c16ScalarSweep(c *Ctx, r *Rng, k *c16Key) {
 		new(big.Int).Add(k.N, r.BigBelow(k.N)),
 		new(big.Int).Add(k.NN, r.BigBelow(k.NN)),
 	}
+	scalars = append(scalars, k.c16LongScalars(r)...)
 	for _, path := range []string{"pk", "sk"} {
 		o := k.ops(path)
 		for _, s := range scalars {
+			k.countScalar(c, s)
 			t := k.freshTriple(path, r)
 			si := c16Int(s)
 			var out c16Triple
@@ -832,7 +894,7 @@ func c16ScalarSweep(c *Ctx, r *Rng, k *c16Key) {
 }
 
 func c16Chains(c *Ctx, r *Rng, k *c16Key) {
-	chains, steps := 3, 5
+	chains, steps := 3, 6
 	if c.Thorough() {
 		chains, steps = 12, 10
 	}
@@ -842,8 +904,15 @@ func c16Chains(c *Ctx, r *Rng, k *c16Key) {
 		path := []string{"pk", "sk"}[ch%2]
 		t := k.freshTriple(path, r)
 		for st := 0; st < steps; st++ {
-			if c.Thorough() && r.IntN(3) == 0 {
-				path = []string{"pk", "sk"}[r.IntN(2)] // mixed paths inside one chain
+			if st > 0 && (r.IntN(2) == 0 || st == steps/2) {
+				// mixed paths inside one chain: the tracked (m, r, c) moves between the
+				// public-key and the secret-key (CRT) implementation of the operations
+				if path == "pk" {
+					path = "sk"
+				} else {
+					path = "pk"
+				}
+				c.Count("chain.path-switch")
 			}
 			var kind, operands string
 			var out *c16Triple
@@ -867,6 +936,9 @@ func c16Chains(c *Ctx, r *Rng, k *c16Key) {
 				break
 			}
 			t = out
+			if st == steps-1 {
+				c.Count(fmt.Sprintf("chain.len%d", steps))
+			}
 			// the tracked plaintext/nonce must be what the secret key recovers from the ciphertext
 			if st == steps-1 || r.IntN(2) == 0 || c.Thorough() {
 				k.emitDecOpen(c, t.ct, ptBig(t.pt), ncBig(t.nc))
